@@ -6,42 +6,90 @@ Open Scope N_scope.
 
 (* NEW backend: for every node state satisfying the invariant (kept by every Store, see below) and every
    block the node can store, RevertHead succeeds and gives back a node equal on every index family:
-   state buckets, history logs, headers, hash->number, transactions/receipts, tx-hash and L1-message
-   lookups, state updates, commitments, casm metadata, running filter, chain height. *)
-Theorem C04_new : forall x b, NInv_new x -> valid_next x b = true ->
+   state buckets (system contracts 0x1/0x2 included), history logs, headers, hash->number,
+   transactions/receipts, tx-hash and L1-message lookups, state updates, commitments, casm metadata,
+   running filter, chain height.  [sys_guard]: the block leaves the system contracts it writes to with a
+   non-empty storage; without it the statement is false for juno (C04_new_sys_refuted). *)
+Theorem C04_new : forall x b, NInv_new x -> valid_next x b = true -> sys_guard (n_st x) (b_diff b) = true ->
   exists x', revert_new_node (store_new_node x b) = Some x' /\ obs x' = obs x.
 Proof. exact c04_new_lemma. Qed.
 Print Assumptions C04_new.
 
-(* LEGACY backend: the same, with no guard (since juno commit 1b89e86 the reverse diff of a slot without a
-   history entry above n-1 is the head value, so a zero write to an absent slot reverts like any other). *)
-Theorem C04_old : forall x b, NInv x -> valid_next x b = true ->
+(* LEGACY backend: the same (no guard for the no-op zero write since juno commit 1b89e86: the reverse diff of
+   a slot without a history entry above n-1 is the head value). *)
+Theorem C04_old : forall x b, NInv x -> valid_next x b = true -> sys_guard (n_st x) (b_diff b) = true ->
   exists x', revert_old_node (store_old_node x b) = Some x' /\ obs x' = obs x.
 Proof. exact c04_old_lemma. Qed.
 Print Assumptions C04_old.
 
 (* the invariants are kept, so the theorems apply along every chain *)
-Theorem C04_inv_new : forall x b, NInv_new x -> valid_next x b = true -> NInv_new (store_new_node x b).
+Theorem C04_inv_new : forall x b, NInv_new x -> valid_next x b = true -> sys_guard (n_st x) (b_diff b) = true ->
+  NInv_new (store_new_node x b).
 Proof. exact NInv_new_store. Qed.
 Print Assumptions C04_inv_new.
-Theorem C04_inv_old : forall x b, NInv x -> valid_next x b = true -> NInv (store_old_node x b).
+Theorem C04_inv_old : forall x b, NInv x -> valid_next x b = true -> sys_guard (n_st x) (b_diff b) = true ->
+  NInv (store_old_node x b).
 Proof. exact NInv_old_store. Qed.
 Print Assumptions C04_inv_old.
 
-(* fork convergence: follow fork A, revert it block by block, follow fork B == follow fork B *)
+(* fork convergence: follow fork A, revert it block by block, follow fork B == follow fork B
+   ([all_valid]: every block of A is accepted and satisfies the system-contract guard) *)
 Theorem fork_converges : forall A B x, NInv_new x -> all_valid store_new_node x A ->
   obs (nrun_new (map NStore A ++ repeat NRevert (length A) ++ B) x) = obs (nrun_new B x).
-Proof. intros. rewrite fork_new_lemma; auto. Qed.
+Proof. exact fork_new_obs. Qed.
 Print Assumptions fork_converges.
 
 Theorem fork_converges_old : forall A B x, NInv x -> all_valid store_old_node x A ->
   obs (nrun_old (map NStore A ++ repeat NRevert (length A) ++ B) x) = obs (nrun_old B x).
-Proof. intros. rewrite fork_old_lemma; auto. Qed.
+Proof. exact fork_old_obs. Qed.
 Print Assumptions fork_converges_old.
 
+(* ---------- without the guard: a block that empties a system contract (replayed on the real node,
+   findings/C04.md) ---------- *)
+Definition wr (a k v : N) : diff := mkDiff [] [] [] [((a, k), v)] [].
+Definition blk (h : N) (d : diff) : block := mkBlock h d [] h 0 false [] [].
+Definition s0 : block := blk 2001 (wr 1 1 5).      (* block 0: slot 1 of system contract 0x1 := 5 *)
+Definition s1 : block := blk 2002 (wr 1 1 0).      (* block 1: back to zero - the contract's storage is empty *)
+Definition s2 : block := blk 2003 (mkDiff [(256, 10)] [] [] [] []).   (* block 2: unrelated *)
+
+(* NEW backend: Update removed the emptied contract; Revert of that block creates it again from the reverse
+   diff, stamped with the REVERTED block's number 1 instead of 0: the node that stored and reverted block 1
+   differs from the node that never saw it - deployment height 1 vs 0, and the historical read of block 0
+   (even of the head block, by number) answers "not found" where the other node answers 5. *)
+Theorem C04_new_sys_refuted :
+  let x := store_new_node node_empty s0 in
+  NInv_new x /\ valid_next x s1 = true /\
+  exists x', revert_new_node (store_new_node x s1) = Some x' /\ obs x' <> obs x /\
+    get (s_dh (n_st x')) [1] = Some 1 /\ get (s_dh (n_st x)) [1] = Some 0 /\
+    read_new (n_st x') (QSlot 1 1) 0 = NotFound /\ read_new (n_st x) (QSlot 1 1) 0 = Found 5.
+Proof.
+  cbv zeta. split; [|split].
+  - apply NInv_new_store; [split; [apply NInv_empty | apply Hist_empty] | vm_compute; reflexivity | vm_compute; reflexivity].
+  - vm_compute. reflexivity.
+  - eexists. split; [vm_compute; reflexivity|]. split; [|vm_compute; repeat split; reflexivity].
+    vm_compute. intro H. discriminate H.
+Qed.
+Print Assumptions C04_new_sys_refuted.
+
+(* LEGACY backend: Update keeps the emptied contract; purgesystemContracts - run by EVERY later RevertHead -
+   removes it, the state root no longer matches the old root, RevertHead fails: after block 1 the node can
+   not revert any block any more (not block 2, which has nothing to do with the contract). *)
+Theorem C04_old_sys_refuted :
+  let x := store_old_node (store_old_node node_empty s0) s1 in
+  valid_next x s2 = true /\ sys_guard (n_st x) (b_diff s2) = true /\ revert_old_node (store_old_node x s2) = None /\
+  s_next (n_st (nrun_old [NStore s0; NStore s1; NStore s2; NRevert; NRevert] node_empty)) = 3.
+Proof. vm_compute. repeat split; reflexivity. Qed.
+Print Assumptions C04_old_sys_refuted.
+
+(* the blocks the guard excludes are exactly of this kind; a zero write that leaves another slot is fine *)
+Example ex_sys_guard : sys_guard (n_st (store_new_node node_empty s0)) (b_diff s1) = false /\
+  all_valid store_new_node node_empty [blk 1 (mkDiff [] [] [] [((1, 1), 5); ((1, 2), 6)] []); blk 2 (wr 1 1 0); blk 3 (wr 2 9 1)] /\
+  all_valid store_old_node node_empty [blk 1 (mkDiff [] [] [] [((1, 1), 5); ((1, 2), 6)] []); blk 2 (wr 1 1 0); blk 3 (wr 2 9 1)].
+Proof. vm_compute. repeat split; reflexivity. Qed.
+
 (* ---------- non-vacuity; the block that used to break the legacy revert ---------- *)
-Definition g0 : block := mkBlock 1001 (mkDiff [(256, 10)] [] [] [] []) [(501, None); (502, Some 601)] 1 1 [(20, 30)] [].
-Definition b1 : block := mkBlock 1002 (mkDiff [] [] [] [((256, 7), 0)] []) [] 2 2 [] [].
+Definition g0 : block := mkBlock 1001 (mkDiff [(256, 10)] [] [] [] []) [(501, None); (502, Some 601)] 1 1 false [(20, (30, 31))] [].
+Definition b1 : block := mkBlock 1002 (mkDiff [] [] [] [((256, 7), 0)] []) [] 2 2 false [] [].
 Definition x1 : node := store_old_node node_empty g0.
 
 (* block 1 writes zero to the never-written slot 7 (DESIGN 8.1): storable, and reverted exactly *)
@@ -49,10 +97,15 @@ Example ex_old_noop_zero_reverts : valid_next x1 b1 = true /\ revert_old_node (s
 Proof. vm_compute. split; reflexivity. Qed.
 Example ex_new_reverts : revert_new_node (store_new_node (store_new_node node_empty g0) b1) = Some (store_new_node node_empty g0).
 Proof. vm_compute. reflexivity. Qed.
-Definition b1' : block := mkBlock 1002 (mkDiff [] [] [] [((256, 7), 3)] []) [(503, None)] 2 2 [] [20].
+(* block 1 (protocol 0.14.1) migrates the class block 0 declared under the old hash *)
+Definition b1' : block := mkBlock 1002 (mkDiff [] [] [] [((256, 7), 3)] []) [(503, None)] 2 2 true [] [(20, 31)].
 Example ex_old_reverts : revert_old_node (store_old_node x1 b1') = Some x1.
 Proof. vm_compute. reflexivity. Qed.
 Example ex_hyps_satisfiable : valid_next x1 b1' = true /\ valid_next node_empty g0 = true.
+Proof. vm_compute. repeat split. Qed.
+Example ex_casm_reads :
+  casm_read (n_casm (store_old_node x1 b1')) 20 0 = Found 30 /\ casm_read (n_casm (store_old_node x1 b1')) 20 1 = Found 31 /\
+  casm_head (n_casm x1) 20 = Found 30.
 Proof. vm_compute. repeat split. Qed.
 Example ex_fork : all_valid store_new_node (store_new_node node_empty g0) [b1'].
 Proof. vm_compute. repeat split. Qed.
